@@ -48,19 +48,21 @@ func (t *AppendOnlyTree) AddLeaf(tx dbtypes.Txer, blockNum, blockPosition uint64
 			return ErrInvalidIndex
 		}
 	}
-	// Calculate new tree nodes
+	// Calculate new tree nodes. The cache is updated on a copy that is only published once the leaf
+	// has been stored, so a failed insertion leaves the cached frontier untouched.
 	currentChildHash := leaf.Hash
 	newNodes := []types.TreeNode{}
+	newLeftCache := t.lastLeftCache
 	for h := uint8(0); h < types.DefaultHeight; h++ {
 		var parent types.TreeNode
 		if leaf.Index&(1<<h) > 0 {
 			// Add child to the right
-			parent = newTreeNode(t.lastLeftCache[h], currentChildHash)
+			parent = newTreeNode(newLeftCache[h], currentChildHash)
 		} else {
 			// Add child to the left
 			parent = newTreeNode(currentChildHash, t.zeroHashes[h])
 			// Update cache
-			t.lastLeftCache[h] = currentChildHash
+			newLeftCache[h] = currentChildHash
 		}
 		currentChildHash = parent.Hash
 		newNodes = append(newNodes, parent)
@@ -80,10 +82,13 @@ func (t *AppendOnlyTree) AddLeaf(tx dbtypes.Txer, blockNum, blockPosition uint64
 	if err := t.storeNodes(tx, newNodes); err != nil {
 		return err
 	}
+	t.lastLeftCache = newLeftCache
 	t.lastIndex++
 	tx.AddRollbackCallback(func() {
-		log.Debugf("decreasing index due to rollback")
-		t.lastIndex--
+		// The cached frontier contains leaves of the rolled back transaction and decreasing the index
+		// alone would not undo that: invalidate the cache so that it is rebuilt from the DB.
+		log.Debugf("invalidating the tree cache due to rollback")
+		t.lastIndex = -2
 	})
 	return nil
 }
